@@ -381,3 +381,59 @@ package reftable
 //@   nopanic
 //@   modifies buflen, bufdata, i.offsets, i.cur.ALLFIELDS, i.finished, rec
 //@   loop 1 invariant i != nil && wfReader(i.r) && wfBI(i.cur) && ref != nil && allocated(ref)
+
+// ---------------------------------------------------------------------------------------------
+// opening a table
+// ---------------------------------------------------------------------------------------------
+
+//@ iface io.Reader.Read
+//@   params p
+//@   modifies buflen, bufdata, p[:]
+//@   ensures result0 >= 0 && result0 <= len(p)
+//@   ensures buflen[iref(self)] == old(buflen[iref(self)]) - min(len(p), old(buflen[iref(self)]))
+//@   ensures forall b ref :: b != iref(self) ==> buflen[b] == old(buflen[b]) && bufdata[b] == old(bufdata[b])
+
+//@ extern encoding/binary.Read
+//@   params r, order, data
+//@   modifies buflen, bufdata, asptr(data, *header).ALLFIELDS, asptr(data, *footer).ALLFIELDS, asptr(data, *uint32)
+//@   ensures result == nil ==> buflen[iref(r)] == old(buflen[iref(r)]) - (istype(data, *header) ? 28 : (istype(data, *footer) ? 40 : 4)) && buflen[iref(r)] >= 0
+//@   ensures forall b ref :: b != iref(r) ==> buflen[b] == old(buflen[b]) && bufdata[b] == old(bufdata[b])
+
+//@ extern hash/crc32.ChecksumIEEE
+//@   params data
+//@   pure
+
+//@ func (HashID).Size
+//@   props C18
+//@   requires i == NullHashID || i == SHA1ID || i == SHA256ID
+//@   nopanic
+//@   pure
+//@   ensures result == 20 || result == 32
+
+//@ func headerSize
+//@   props C18
+//@   pure
+//@   ensures result == (version == 1 ? 24 : 28)
+
+//@ func footerSize
+//@   props C18
+//@   pure
+//@   ensures result == (version == 1 ? 68 : 72)
+
+//@ func readHeader
+//@   props C18
+//@   requires h != nil && iref(r) != 0 && (version == 1 || version == 2)
+//@   nopanic
+//@   modifies buflen, bufdata, h.ALLFIELDS
+//@   ensures result == nil ==> buflen[iref(r)] == old(buflen[iref(r)]) - min(version == 1 ? 24 : 28, old(buflen[iref(r)]))
+//@   ensures forall b ref :: allocated(b) && b != iref(r) ==> buflen[b] == old(buflen[b])
+
+//@ func NewReader
+//@   props C18
+//@   requires iref(src) != 0
+//@   nopanic
+//@   modifies buflen, bufdata
+//@   ensures result1 == nil ==> fresh(result0) && result0 != nil && result0.src == src
+//@   ensures result1 == nil ==> (result0.hashSize == 20 || result0.hashSize == 32) && (result0.version == 1 || result0.version == 2)
+//@   ensures result1 == nil ==> result0.size < 9223372036854775808
+//@   ensures result1 == nil ==> result0.objectIDLen >= 0 && result0.objectIDLen < 32
